@@ -48,6 +48,10 @@ def load_harness(h):
 
 
 # ---------------------------------------------------------------------------------------------------
+class HarnessError(Exception):
+    pass
+
+
 class Skip(Exception):
     """Concrete replay left the assumed region."""
 
@@ -85,7 +89,7 @@ class ConcreteCtx:
         if not cond(c).t:
             raise Skip("assumption does not hold concretely")
 
-    def nice(self, c):
+    def nice(self, x, cands):
         pass
 
     def check(self, label, c, key=None, info=None):
@@ -118,7 +122,9 @@ class SymCtx:
         self.covered = {}
         self.notes = {}
         self.checks = {}  # label -> [n_unsat, n_sat, n_unknown]
-        self.candidates = []  # dicts
+        self.reproduced = {}  # key -> finding
+        self.unreproduced = []
+        self.attempts = {}
         self.nice_terms = []
         self.samples = []
 
@@ -164,11 +170,10 @@ class SymCtx:
 
         self.ex.assume(cond(c).t)
 
-    def nice(self, c):
-        """Side constraint used only when searching for a replayable witness."""
-        from .ops import cond
-
-        self.nice_terms.append(cond(c).t)
+    def nice(self, x, cands):
+        """Preferred concrete values of an input; used only when searching for a replayable witness."""
+        if hasattr(x, "t"):
+            self.nice_terms.append((x.t, list(cands)))
 
     def cover(self, label):
         self.covered[label] = self.covered.get(label, 0) + 1
@@ -195,25 +200,32 @@ class SymCtx:
             st[2] += 1
             return True
         st[1] += 1
-        # one candidate per (label, key) and path class is enough; cap the work
         k = key or label
-        if sum(1 for cd in self.candidates if cd["key"] == k) >= 3:
+        # a key that already has a reproduced witness needs no further model search; cap failed attempts
+        if k in self.reproduced or self.attempts.get(k, 0) >= 2:
             return False
-        models = []
+        self.attempts[k] = self.attempts.get(k, 0) + 1
         neg = z3.Not(_zb(c.t))
-        extra_sets = []
         nr = _zb(c.nr)
-        if self.nice_terms:
-            extra_sets.append([nr] + [_zb(t) for t in self.nice_terms])
-        extra_sets.append([nr])
-        if self.nice_terms:
-            extra_sets.append([_zb(t) for t in self.nice_terms])
-        for extra in extra_sets:
-            models += self.ex.more_models(neg, extra)
-        models.append(model)
-        cand = {"label": label, "key": k, "info": info, "models": [self._model_dict(m) for m in models],
-                "choices": dict(self.path_choices)}
-        self.candidates.append(cand)
+        soft = list(self.nice_terms)
+        cand = {"label": label, "key": k, "info": info, "choices": dict(self.path_choices)}
+        tried = []
+        gens = [lambda: self.ex.more_models(neg, [nr], soft), lambda: self.ex.more_models(neg, [], soft),
+                lambda: [model]]
+        for g in gens:
+            for m in g():
+                md = self._model_dict(m)
+                path, code, txt = replay_model(self.inst, cand, md)
+                tried.append({"model": md["reals"], "code": code, "out": txt[-300:]})
+                if code == EXIT_REPRODUCED:
+                    self.reproduced[k] = {"label": label, "key": k, "replay": path, "info": info, "model": md,
+                                          "output": txt[-600:]}
+                    return False
+                try:
+                    os.remove(path)
+                except OSError:
+                    pass
+        self.unreproduced.append({"label": label, "key": k, "info": info, "tried": tried})
         return False
 
     def _model_dict(self, m):
@@ -269,6 +281,13 @@ def run_instance(d):
                 if isinstance(val, Skip):
                     raise symx.Abort()
                 tb = "".join(traceback.format_exception(type(val), val, val.__traceback__)[-4:])
+                frames = traceback.extract_tb(val.__traceback__)
+                in_repo = any("/sysloss/" in f.filename for f in frames)
+                from .symx import NonFinite
+
+                if not isinstance(val, NonFinite) and (not in_repo or frames[-1].filename.startswith(VERIF)):
+                    # raised by the harness / oracle / a shim, not by the code under test
+                    raise HarnessError("%s: %r\n%s" % (type(val).__name__, val, tb))
                 # an exception the harness did not expect: candidate "crash" violation, to be replayed
                 ctx.check("no-unexpected-exception", False, key="crash/%s" % type(val).__name__,
                           info={"exception": repr(val)[:300], "trace": tb[-1500:]})
@@ -289,25 +308,9 @@ def run_instance(d):
         out["outcomes"] = path_outcomes
         out["samples"] = ctx.samples
         out["missing_cover"] = [c for c in inst.cover if not ctx.covered.get(c)]
-        # replay candidates
-        for cand in ctx.candidates:
-            rep = None
-            for m in cand["models"]:
-                path, code, txt = replay_model(inst, cand, m)
-                if code == EXIT_REPRODUCED:
-                    rep = {"label": cand["label"], "key": cand["key"], "replay": path, "info": cand["info"],
-                           "model": m, "output": txt[-600:]}
-                    break
-                try:
-                    os.remove(path)
-                except OSError:
-                    pass
-            if rep:
-                out["findings"].append(rep)
-            else:
-                out["unreproduced"].append({"label": cand["label"], "key": cand["key"], "info": cand["info"],
-                                            "model": cand["models"][-1] if cand["models"] else None,
-                                            "output": txt[-600:] if cand["models"] else ""})
+        out["findings"] = list(ctx.reproduced.values())
+        # an unreproduced candidate only matters when no witness of the same key reproduced
+        out["unreproduced"] = [u for u in ctx.unreproduced if u["key"] not in ctx.reproduced]
     except Exception as e:  # noqa: BLE001
         out["errors"].append("".join(traceback.format_exception(type(e), e, e.__traceback__))[-3000:])
     out["wall_s"] = round(time.time() - t0, 2)
@@ -335,8 +338,10 @@ def do_replay(path, verbose=True):
     fn = load_harness(doc["harness"])
     ctx = ConcreteCtx(doc["model"], doc.get("choices", {}))
     import warnings
+    import numpy as np
 
     warnings.simplefilter("ignore")
+    np.seterr(divide="raise", invalid="raise")  # a numpy inf/nan becomes FloatingPointError
     try:
         fn(ctx, **doc["params"])
     except Skip as e:
@@ -344,7 +349,8 @@ def do_replay(path, verbose=True):
             print("replay: not applicable (%s)" % e)
         return EXIT_OK
     except Exception as e:  # noqa: BLE001
-        if doc["label"] == "no-unexpected-exception" and doc["key"] == "crash/%s" % type(e).__name__:
+        ename = "NonFinite" if isinstance(e, (ZeroDivisionError, FloatingPointError)) else type(e).__name__
+        if doc["label"] == "no-unexpected-exception" and doc["key"] == "crash/%s" % ename:
             if verbose:
                 print("replay: reproduced crash %r" % (e,))
                 print("VIOLATION property=%s replay=%s" % (doc["property"], path))
@@ -393,7 +399,7 @@ def run_property(prop, tier, instances, meta, seed=0, jobs=None):
             results.append(run_instance(d))
     else:
         ctxm = mp.get_context("spawn")
-        with ctxm.Pool(min(jobs, len(dicts)), maxtasksperchild=8) as pool:
+        with ctxm.Pool(min(jobs, len(dicts)), maxtasksperchild=1) as pool:
             for r in pool.imap_unordered(run_instance, dicts):
                 results.append(r)
     results.sort(key=lambda r: r["name"])
